@@ -185,6 +185,20 @@ def run(tier, seed):
              'label': 'other-process-hashseed-loky', 'meas': c['meas'], 'op': c['op']}
         by_tid[('law', l['tid'])] = (g, l['label'])
         laws.append(l)
+    # every sampled call once more in a FRESH interpreter (nothing was called before it there) and compared with the
+    # result obtained in a long-lived worker process after hundreds of other calls
+    import multiprocessing as mp
+    fresh = rng.sample(groups, min(len(groups), 160 if tier == 'quick' else 800))
+    with mp.get_context('spawn').Pool(config.NCPU, maxtasksperchild=1) as pool:
+        fresh_rows = pool.map(_rows_only, [g[1] for g in fresh], chunksize=1)
+    worn_rows = runner.pmap(_rows_only, [g[1] for g in fresh])
+    for g, fr, wr in zip(fresh, fresh_rows, worn_rows):
+        if fr is None or wr is None:
+            continue
+        l = {'tid': len(laws) + 1, 'law': 'EQ', 'prop': 'C10', 'A': fr, 'B': wr, 't': g[1]['t'],
+             'label': 'fresh-interpreter', 'meas': g[1]['meas'], 'op': g[1]['op']}
+        by_tid[('law', l['tid'])] = (g, l['label'])
+        laws.append(l)
     runner.log('E4: TLC judges %d EQ laws, %d API traces, %d split events' % (len(laws), len(apis), len(splits)))
     lverd, lst = runner.validate(laws, 'TraceLaws', 'e4l', batch=800)
     averd, ast = runner.validate(apis, 'TraceAPI', 'e4a')
@@ -217,6 +231,7 @@ def run(tier, seed):
 
 
 def _rows_only(case):
+    os.environ[config.HOOK_GUARD] = '1'
     obs, res, ev, tabs = record.execute(case)
     return record.law_rows(case, res, tabs)
 
